@@ -1156,7 +1156,20 @@ func (c *Ctx) throughStruct(v ssa.Value) ssa.Value {
 			return v
 		}
 		a, ok := fa.X.(*ssa.Alloc)
-		if !ok || a.Referrers() == nil {
+		if !ok {
+			// the helper returns a pointer to the struct: x := h(); x.f
+			switch px := fa.X.(type) {
+			case *ssa.Call:
+				src = px
+			case *ssa.Extract:
+				src = px
+			default:
+				return v
+			}
+			field = fa.Field
+			break
+		}
+		if a.Referrers() == nil {
 			return v
 		}
 		for _, ref := range *a.Referrers() {
@@ -1194,12 +1207,13 @@ func (c *Ctx) throughStruct(v ssa.Value) ssa.Value {
 		if !ok || b == h.Recover || idx >= len(ret.Results) {
 			continue
 		}
-		ld, ok := ret.Results[idx].(*ssa.UnOp)
-		if !ok || ld.Op != token.MUL {
-			continue
+		var a *ssa.Alloc
+		if ld, ok := ret.Results[idx].(*ssa.UnOp); ok && ld.Op == token.MUL {
+			a, _ = ld.X.(*ssa.Alloc)
+		} else if pa, ok := ret.Results[idx].(*ssa.Alloc); ok {
+			a = pa // &T{...} returned
 		}
-		a, ok := ld.X.(*ssa.Alloc)
-		if !ok || a.Referrers() == nil {
+		if a == nil || a.Referrers() == nil {
 			continue
 		}
 		for _, ref := range *a.Referrers() {
